@@ -483,7 +483,10 @@ ExcLeaves ==
 
 (* shipped helper types (pane.types): Range, ValueOrList, alone and as members of each other *)
 ShippedLeaves == { RangeCls(TInt), RangeCls(TFloat), TVol(TInt), TVol(TStr), TVol(TS("any")), TVol(TSeq("list", TInt)),
-                   TVol(RangeCls(TInt)), TVol(TOpt(TInt)), TVol(TS("fraction")), TVol(KAlias) }
+                   TVol(RangeCls(TInt)), TVol(TOpt(TInt)), TVol(TS("fraction")), TVol(KAlias),
+                   \* the same members in both orders (typing compares Union types without regard to order; pane must not)
+                   TVol(TUnion(<<TS("bytearray"), TS("bytes")>>)), TVol(TUnion(<<TS("bytes"), TS("bytearray")>>)),
+                   TVol(TUnion(<<TInt, TFloat>>)), TVol(TUnion(<<TFloat, TInt>>)) }
 
 LeafKinds ==
   CASE Focus = "core"   -> {"none", "bool", "int", "float", "complex", "str", "bytes", "any"}
